@@ -1198,6 +1198,7 @@ fn hd_char(cls: usize, i: usize) -> char {
         1 => char::from_u32((0xC0 + (i * 5) % 0x80) as u32).unwrap(),
         2 => char::from_u32((0x6771 + (i * 3) % 200) as u32).unwrap(),
         3 => char::from_u32((0x1F600 + i % 60) as u32).unwrap(),
+        5 if i % 5 == 3 => '\\',
         _ => ASCII_TAB.as_bytes()[(i * 7 + i / 13) % 50] as char,
     }
 }
@@ -1261,6 +1262,37 @@ fn first_line(b: &[u8]) -> Vec<u8> {
     }
 }
 
+/// POSIX `read` without -r, line by line with `IFS=`: what the loop `echo`es (complete lines only).
+fn non_raw_lines(b: &[u8]) -> Vec<u8> {
+    let mut out = vec![];
+    let mut line = vec![];
+    let mut i = 0;
+    while i < b.len() {
+        match b[i] {
+            b'\n' => {
+                out.extend_from_slice(&line);
+                out.push(b'\n');
+                line.clear();
+                i += 1;
+            }
+            b'\\' => {
+                if i + 1 >= b.len() {
+                    break;
+                }
+                if b[i + 1] != b'\n' {
+                    line.push(b[i + 1]);
+                }
+                i += 2;
+            }
+            c => {
+                line.push(c);
+                i += 1;
+            }
+        }
+    }
+    out
+}
+
 fn run_hd(ws: &[&str]) -> (String, String) {
     let n = kv_n(ws, "n");
     let cls = kv_n(ws, "cls");
@@ -1272,6 +1304,9 @@ fn run_hd(ws: &[&str]) -> (String, String) {
     let k = kv_n(ws, "k");
     let via = kv(ws, "via").unwrap_or("b");
     let multi = kv_n(ws, "multi") != 0;
+    if cls == 5 && (!quoted || exp != 0) {
+        return ("bad-case".into(), "-".into()); // backslashes stay literal only under a quoted delimiter
+    }
     let body = hd_body(n, cls, ll);
     let value = hd_value(kv_n(ws, "vn"), cls);
     let split = body.char_indices().nth(n / 2).map(|x| x.0).unwrap_or(body.len());
@@ -1304,6 +1339,8 @@ fn run_hd(ws: &[&str]) -> (String, String) {
         "read" => "while IFS= read -r l; do echo \"$l\"; done".to_string(),
         "mix" => "IFS= read -r l; echo \"$l\"; cat".to_string(),
         "stop" => "IFS= read -r l; echo \"$l\"".to_string(),
+        // without -r: backslash-newline continues the line, a backslash quotes the next character
+        "nr" => "while IFS= read l; do echo \"$l\"; done".to_string(),
         "head" => format!("hhead {k}"),
         _ => return ("bad-case".into(), "-".into()),
     };
@@ -1329,6 +1366,7 @@ fn run_hd(ws: &[&str]) -> (String, String) {
     // the property statement, directly: the reader finds exactly the bytes of the expanded body
     let b = expanded.as_bytes();
     let mut want: Vec<u8> = match rd {
+        "nr" => non_raw_lines(b),
         "mix" => if b.is_empty() { b"\n".to_vec() } else { b.to_vec() },
         "stop" => if b.is_empty() { b"\n".to_vec() } else { first_line(b) },
         "head" => b[..k.min(b.len())].to_vec(),
@@ -1370,14 +1408,18 @@ fn run_hd(ws: &[&str]) -> (String, String) {
 }
 
 fn gen_hd(rng: &mut Rng, n: usize) -> String {
-    let cls = rng.below(5);
+    let cls = rng.below(6);
     let ll = *rng.pick(&[1, 2, 7, 40, 80, 200, 1000]);
-    let q = rng.below(2);
+    let q = if cls == 5 { 1 } else { rng.below(2) };
     let dash = if rng.chance(1, 3) { 1 } else { 0 };
-    let exp = *rng.pick(&[0, 0, 1, 2]);
-    let rd = *rng.pick(&["cat", "cat", "read", "mix", "stop", "head"]);
+    let exp = if cls == 5 { 0 } else { *rng.pick(&[0, 0, 1, 2]) };
+    let rd = if cls == 5 && rng.chance(2, 3) {
+        "nr"
+    } else {
+        *rng.pick(&["cat", "cat", "read", "mix", "stop", "head", "nr"])
+    };
     // `read` works byte by byte: keep its bodies moderate
-    let n = if (rd == "read" || rd == "mix") && n > 1500 { n % 1500 } else { n };
+    let n = if (rd == "read" || rd == "mix" || rd == "nr") && n > 1500 { n % 1500 } else { n };
     let k = *rng.pick(&[0, 1, 2, 3, 5, 100, PIPE_BUF, PIPE_SIZE, PIPE_SIZE + 1, 5000]);
     let via = *rng.pick(&["b", "s", "f", "p"]);
     let multi = if rng.chance(1, 4) { 1 } else { 0 };
@@ -1465,6 +1507,68 @@ fn run_lim(ws: &[&str]) -> (String, String) {
         "FAIL:wrong-data-after-failure".to_string()
     };
     (obs, oracle)
+}
+
+
+// ------------------------------------------------------------------------------------------
+// (ii-f) the `read` built-in on a pipe: complete line, end of input, bytes that are not UTF-8, NUL
+
+fn rd_payload(n: usize, bad: usize) -> Vec<u8> {
+    let mut body: Vec<u8> = (0..n)
+        .map(|i| {
+            if i == n / 2 && bad == 1 {
+                0xFF
+            } else if i == n / 2 && bad == 3 {
+                0
+            } else if i == n / 2 && bad == 4 {
+                b'\\'
+            } else {
+                alpha(97, i, 7)
+            }
+        })
+        .collect();
+    match bad {
+        2 => body.push(0xE6),
+        5 => (),
+        _ => body.push(b'\n'),
+    }
+    body
+}
+
+fn run_rd(ws: &[&str]) -> (String, String) {
+    let n = kv_n(ws, "n");
+    let bad = kv_n(ws, "bad");
+    let raw = kv_n(ws, "raw") != 0;
+    let data = rd_payload(n, bad);
+    let script = format!(
+        "gen | {{ IFS= read {}l; echo \"$?:$l\" >/out; }}",
+        if raw { "-r " } else { "" }
+    );
+    PAYLOAD.with(|p| *p.borrow_mut() = data.clone());
+    let (out, value) = shell::run_with(
+        Config::new(&script),
+        |env, _| {
+            env.builtins.insert("gen", Builtin::new(Type::Mandatory, gen_main));
+        },
+        |_, state| shell::read_file(state, "/out"),
+    );
+    if out.stuck {
+        return ("TIMEOUT".into(), "FAIL:deadlock".into());
+    }
+    let got: Vec<u8> = value.flatten().unwrap_or_default();
+    // the statement, directly: a well-formed line arrives byte for byte; malformed input is refused
+    let line = &data[..data.len().saturating_sub(1)];
+    let oracle = match bad {
+        0 => {
+            let mut want = b"0:".to_vec();
+            want.extend_from_slice(line);
+            want.push(b'\n');
+            if got == want { "ok".to_string() } else { "FAIL:line-differs".to_string() }
+        }
+        1 | 2 | 3 => if got == b"3:\n" { "ok".to_string() } else { "FAIL:malformed-input-accepted".to_string() },
+        _ => "-".to_string(),
+    };
+    (show_bytes(&got), oracle)
 }
 
 // ------------------------------------------------------------------------------------------
@@ -1583,6 +1687,7 @@ fn run_case(case: &str) -> (String, String) {
         Some(&"fd") => run_fd(&ws[1..]),
         Some(&"hd") => run_hd(&ws[1..]),
         Some(&"lim") => run_lim(&ws[1..]),
+        Some(&"rd") => run_rd(&ws[1..]),
         _ => run_ops(case),
     }
 }
@@ -1663,6 +1768,15 @@ fn main() {
                 let nl = rng.below(3).min(n);
                 let case = format!("fd pro={pro} form={form} n={n} pat={pat} nl={nl}");
                 run(&case, false);
+            }
+        }
+    }
+
+    // (ii-f) `read` on a pipe
+    for n in [0usize, 1, 2, 7, 100, PIPE_BUF + 1, PIPE_SIZE + 3] {
+        for bad in 0..6 {
+            for raw in 0..2 {
+                run(&format!("rd n={n} bad={bad} raw={raw}"), false);
             }
         }
     }
